@@ -7,10 +7,10 @@ CMD = "env PYTHONDONTWRITEBYTECODE=1 PYTHONHASHSEED=0 /venv/bin/python -m hv che
 
 T = {
  "C01": ("exploration", "reference HTML tokenizer + tree comparison at the API boundary; html.parser second opinion",
-         "Every rendered string of random and catalogue-covering element trees is tokenized by an independent strict tokenizer and compared node by node with the model tree (names, nesting, void/self-closing form, attribute order, decoded values, decoded text runs); held on the executions explored, which cover every catalogue and void name in every run.",
+         "Every rendered string of random and catalogue-covering element trees (built through 20 construction routes incl. item assignment, one-shot iterators, rejected batches, shared containers) is tokenized by an independent strict tokenizer and compared node by node with the model tree; trees are also rendered, changed through the public API and rendered again. Held on the executions explored, which cover every catalogue and void name in every run.",
          "Trusts the harness tokenizer/charref decoder (cross-checked against stdlib html.parser) and stdlib html.unescape."),
  "C02": ("exploration", "runtime contract on live html_escape + placeholder-differential boundary oracle",
-         "A contract on the real html_escape fires on every call; all 1,112,064 scalar values and all short metacharacter strings are driven through a matrix of 39 child positions / insertion routes and the emitted segment must unit-decode to the leaf without forging markup. Exhaustive for the enumerated sub-spaces, sampled beyond.",
+         "A contract on the real html_escape fires on every call; all 1,112,064 scalar values and all short metacharacter strings are driven through a matrix of about 65 child positions / insertion routes / short histories (after a trusted twin, after a failed raw-text rendering, renamed elements, head content, documents) and the emitted segment must unit-decode to the leaf without forging markup. Exhaustive for the enumerated sub-spaces, sampled beyond.",
          "Trusts stdlib html.unescape as the definition of character-reference decoding; layout around a leaf is assumed content-independent (a mismatch is itself reported)."),
  "C03": ("exploration", "runtime contract on live html_escape + provenance-consuming attribute-value oracle over the tokenized open tag",
          "Each attribute value region found by the independent tokenizer must consume, part by part, to the supplied plain (escaped under the 7-character attribute set) and HTML (verbatim) parts, for every way of supplying and merging values; per-code-point and short-string exhaustive, sampled beyond.",
